@@ -16,7 +16,7 @@ class X(ExprMixin, CallMixin):
         self.loop_handlers = {}                                          # (qual, ordinal) -> handler(X, node, st)
         self.opaque_ops, self.opaque_eq, self.opaque_truth = {}, {}, {}
         self.opaque_methods, self.opaque_call, self.opaque_isinstance = {}, {}, {}
-        self.assume = [] if assume is None else list(assume)
+        self.assume = [] if assume is None else assume      # shared with the unit context: later assumptions are visible
         self.exits = []
         self.depth, self.max_depth = 0, 12
         self.cur_qual, self.cur_mod = "<top>", None
@@ -252,16 +252,17 @@ class X(ExprMixin, CallMixin):
             self.exits.append(Exit(e.kind, fs.pc, e.payload, fs.snap(), list(fs.log), dict(fs.env) if e.env is not None else None, e.where))
 
     def split_cm(self, node):
-        """@contextmanager generator -> (pre statements, yield value expr, post statements); exactly one yield"""
+        """@contextmanager generator -> (pre, yield value expr, post_on_exception, post_on_normal_exit); exactly one yield, which
+        is a top-level statement of the generator body or the only statement of a top-level try/finally without handlers"""
         yields = [n for n in ast.walk(node) if isinstance(n, (ast.Yield, ast.YieldFrom))]
         if len(yields) != 1: raise Unsupported(f"context manager {node.name} with {len(yields)} yields")
         body = [b for b in node.body if not (isinstance(b, ast.Expr) and isinstance(b.value, ast.Constant))]
-        last = body[-1]
-        if isinstance(last, ast.Try) and len(last.body) == 1 and isinstance(last.body[0], ast.Expr) and last.body[0].value is yields[0] \
-                and not last.handlers and not last.orelse:
-            return body[:-1], yields[0].value, last.finalbody, True
-        if isinstance(last, ast.Expr) and last.value is yields[0]:
-            return body[:-1], yields[0].value, [], False
+        for i, b in enumerate(body):
+            if isinstance(b, ast.Expr) and b.value is yields[0]:
+                return body[:i], yields[0].value, None, body[i + 1:]                 # no try: an exception in the with-body skips the rest
+            if isinstance(b, ast.Try) and len(b.body) == 1 and isinstance(b.body[0], ast.Expr) and b.body[0].value is yields[0] \
+                    and not b.handlers and not b.orelse:
+                return body[:i], yields[0].value, list(b.finalbody), list(b.finalbody) + body[i + 1:]
         raise Unsupported(f"context manager shape of {node.name}")
 
     def s_With(self, s, st):
@@ -280,7 +281,7 @@ class X(ExprMixin, CallMixin):
         if found is None: raise Unsupported("with: unknown context manager")
         node, owner = found
         if "contextmanager" not in self.w.decorators(node): raise Unsupported("with on non-generator context manager")
-        pre, yv, post, protected = self.split_cm(node)
+        pre, yv, post_exc, post = self.split_cm(node)
         args = self.seq_items(ce.args, st)
         kwargs = {k.arg: self.ev(k.value, st) for k in ce.keywords}
         cm_env = {"__class__": owner}
@@ -307,10 +308,10 @@ class X(ExprMixin, CallMixin):
         env0 = dict(st.env)
         new = self.run_protected(lambda st_: self.block(s.body, st_), st)
         for e in new:
-            if e.kind == "raise" and not protected:
+            if e.kind == "raise" and post_exc is None:
                 self.exits.append(e); continue        # generator without try/finally: exception propagates, post does not run
             fs = State(e.cond, dict(e.env if e.env is not None else env0), {k: dict(v) for k, v in e.heap.items()}, list(e.log))
-            in_cm(post, fs, dict(env_after))
+            in_cm(post_exc if e.kind == "raise" else post, fs, dict(env_after))
             if not fs.dead:
                 self.exits.append(Exit(e.kind, fs.pc, e.payload, fs.snap(), list(fs.log), dict(fs.env) if e.env is not None else None, e.where))
         if not st.dead: in_cm(post, st, dict(env_after))
